@@ -71,7 +71,7 @@ Definition quiescent (s : st) : bool := match queue s with [] => true | _ => fal
 Definition noauth (es : list ev) : bool := forallb (fun e => match e with ERun _ OAuth => false | _ => true end) es.
 Definition down_ok (s : st) (h : nat) : bool :=
   let x := hosts s h in
-  if (present x =? 1) && (up x =? 0) && negb (ign x) then
+  if (present x =? 1) && (up x =? 0) && negb (ignd s h) then
     match reg x with
     | Some r => negb (rcanc (recs s r)) && (existsb (Nat.eqb r) (timers s) || rstop (recs s r))
     | None => false
@@ -79,7 +79,7 @@ Definition down_ok (s : st) (h : nat) : bool :=
   else true.
 Definition up_ok (s : st) (h : nat) : bool :=
   let x := hosts s h in
-  if (present x =? 1) && (up x =? 1) && negb (ign x) then forallb (fun sid => negb (pools x sid =? 0)) (sessions s) else true.
+  if (present x =? 1) && (up x =? 1) && negb (ignd s h) then forallb (fun sid => negb (poolsd s h sid =? 0)) (sessions s) else true.
 
 Definition C25_down_has_reconnector_full : Prop := forall kinds ns sc es h,
   let s := run (init kinds ns sc) es in noauth es = true -> quiescent s = true -> down_ok s h = true.
@@ -102,6 +102,26 @@ Theorem C25_up_has_pools_refuted : ~ C25_up_has_pools_full.
 Proof. intros H. specialize (H [0] 2 None w_up 0 eq_refl). vm_compute in H. discriminate. Qed.
 Print Assumptions C25_up_has_pools_refuted.
 
+(* "... until it is marked up": whenever on_up goes ahead for a host -- whatever the policy says about its distance at that
+   moment (the distance may have changed since the host went down) -- the host's reconnector is detached and cancelled *)
+Theorem C25_up_clears_reconnector : forall s h, handling (hosts s h) = false -> up (hosts s h) <> 1 ->
+  reg (hosts (on_up s h) h) = None /\ (forall r, reg (hosts s h) = Some r -> rcanc (recs (on_up s h) r) = true).
+Proof. exact on_up_clears. Qed.
+Print Assumptions C25_up_clears_reconnector.
+
+(* the global form "a host marked up has no live reconnector" is refuted by the same overlapping on_add / on_up history
+   (open finding C25-4): there the host is marked up by on_add while the failed on_up handling starts a reconnector *)
+Definition no_reconnector_when_up (s : st) (h : nat) : bool :=
+  let x := hosts s h in
+  if (present x =? 1) && (up x =? 1) then
+    match reg x with Some r => rcanc (recs s r) || negb (existsb (Nat.eqb r) (timers s ++ probes s)) | None => true end
+  else true.
+Definition C25_up_no_reconnector_full : Prop := forall kinds ns sc es h,
+  let s := run (init kinds ns sc) es in no_reconnector_when_up s h = true.
+Theorem C25_up_no_reconnector_refuted : ~ C25_up_no_reconnector_full.
+Proof. intros H. specialize (H [0] 2 None w_up 0). vm_compute in H. discriminate. Qed.
+Print Assumptions C25_up_no_reconnector_refuted.
+
 (* hypotheses are satisfiable: a failed host with its single live reconnector; a removed host *)
 Example C25_nonvacuous_live : let s := run (init [1; 1] 2 None) [EFail 0; ERun 0 OOk] in
   live s 0 /\ rhost (recs s 0) = 0 /\ up (hosts s 0) = 0 /\ down_ok s 0 = true.
@@ -111,4 +131,15 @@ Example C25_nonvacuous_inflight : let s := run (init [1] 1 None) [EFail 0; ERun 
 Proof. vm_compute. repeat split; auto. Qed.
 Example C25_nonvacuous_removed : let s := run (init [1; 1] 1 (Some 2)) [EFail 1; ERun 0 OOk; ERemove 1] in
   present (hosts s 1) = 2 /\ timers s = [0] /\ rcanc (recs s 0) = true.
+Proof. vm_compute. repeat split; auto. Qed.
+(* a replacement node under the address of a removed one is a different object: late work for the removed object starts no
+   reconnector (object 0 removed, object 1 = same endpoint added, the old object's pool creation fails afterwards) *)
+Example C25_nonvacuous_replacement :
+  let s := run (init [1] 1 None) [EFail 0; ERun 0 OOk; EStatusUp 0; ERemove 0; EAdd 1; ERun 1 OFail; ERun 2 OOk] in
+  present (hosts s 0) = 2 /\ present (hosts s 1) = 1 /\ reg (hosts s 0) = None /\ ep s 1 = ep s 0.
+Proof. vm_compute. repeat split; auto. Qed.
+(* the host became IGNORED while it was down: a status-up event still cancels its reconnector *)
+Example C25_nonvacuous_ignored_later :
+  let s := run (init [1] 1 None) [EFail 0; ERun 0 OOk; ESetIgn 0 true; EStatusUp 0] in
+  up (hosts s 0) = 1 /\ reg (hosts s 0) = None /\ rcanc (recs s 0) = true /\ timers s = [0].
 Proof. vm_compute. repeat split; auto. Qed.
